@@ -9,15 +9,34 @@ Asgi.call.  Two kinds of guard are wrapped:
   * the real Guard (a recording subclass) over a family of small policies and
     policy sets; the decision the model is given is the one the real engine
     computes for the same request.
-Observables (per call): the ordered trace of build_env / evaluate_async / send /
-downstream calls with their arguments (scope content at that moment, identity of
-receive/send, the four builder objects, message type/status/sorted headers/body
-bytes), the scope dict afterwards (guard attached under "rbacx_guard", everything
-else unchanged), how the call ended (returned / exception class).
-The theorems of props/C20.v make the model's answer the only behaviour the property
-allows on downstream calls, messages and scope, so a difference there is a
-violation with the case as failing input; a difference only in the exception class
-or in the build/evaluate part of the trace is reported as a broken correspondence.
+The incoming scope is an input of the middleware and the property quantifies over it:
+besides JSON data it may carry objects — a scope value {"$obj": "guard"} in a case
+stands for the very guard object the middleware was built with, {"$obj":
+"other_guard"} for another guard object (same class), {"$obj": "object"} for a plain
+object — under 'rbacx_guard' (what an outer instance of the middleware leaves there)
+or any other key.  The model's scope has the same three kinds of entries (Asgi.sval:
+SV / SGuard / SObj).  A case may also be a stacked deployment: "outer" lists further
+instances of the middleware wrapped around the case's own one, outermost first, each
+sharing the guard object ("same") or with its own ("own": scripted stub, or a real
+Guard over "gspec").  Every instance that is entered is one call of the model: its
+input scope is the scope as it received it (entries that are its own guard object
+are told apart from other objects by identity), its downstream's failure is the way
+the next instance ended.
+Observables (per instance call): the ordered trace of build_env / evaluate_async /
+send / downstream calls with their arguments (scope content at that moment, identity
+of receive/send, the four builder objects, which guard was consulted, message
+type/status/sorted headers/body bytes), the scope dict afterwards — for an instance
+whose downstream is another instance: as handed over — (guard attached under
+"rbacx_guard", everything else unchanged), how the call ended (returned / exception
+class).
+Judgement: (1) per instance, the theorems of props/C20.v make the model's answer the
+only behaviour the property allows on downstream calls, messages and scope, so a
+difference there is a violation with the case as failing input; a difference only in
+the exception class or in the build/evaluate part of the trace is reported as a
+broken correspondence.  (2) per case, end to end and without the model
+(judge_direct): the application at the bottom runs iff no enforcing instance's
+builder failed, engine raised or engine refused; a response is sent iff an engine
+refused, and it is the one generic 403.
 """
 import asyncio
 import itertools
@@ -1196,17 +1215,27 @@ def corpus_cases():
 
 
 def run(chk):
-    chk.rule = ("one evaluated case = one `await middleware(scope, receive, send)`; enumerated completely: mode "
+    chk.rule = ("one evaluated case = one `await middleware(scope, receive, send)` of one middleware instance (a stacked "
+                "case gives one per instance entered); enumerated completely: mode "
                 "{enforce, inject, ENFORCE, audit} x add_headers x scope type {http, websocket, lifespan, unknown, "
                 "missing} x builder {ok, raising, absent, 3 objects, not iterable} x 49 evaluation outcomes (allowed x "
                 "effect x reason x rule id x policy id, raising) with a stub guard; failing-send x raising-downstream "
                 "product; the enforced path over allowed {True, False, 0, 1, '', None} x effect x 6 reasons x 5 rule ids "
                 "x 5 policy ids x add_headers; the real Guard over 14 policies/policy sets x 3 requests x mode x add_headers x scope type x "
-                "builder; then seeded random hostile decisions (non-ASCII, quotes, CR/LF, 5000 chars, the word "
-                "Forbidden, None, non-strings, truthy/falsy non-bool `allowed`), hostile modes/scope types, stale "
-                "'rbacx_guard' keys, and real-Guard policies with hostile rule/policy ids. non-trivial = the access "
+                "builder; the incoming scope's 'rbacx_guard' {the middleware's own guard object, another guard object, a "
+                "plain object, None, JSON data} x position in the dict x mode x add_headers x scope type x builder x "
+                "{allow, deny, raise} x raising downstream, and objects under other keys / as the type; stacked "
+                "deployments: an outer instance {inject, enforce} x {same guard object, own guard allowing / denying / "
+                "raising} x builder {ok, absent, raising} around an inner instance {enforce, inject} x builder x {allow, "
+                "deny, raise} x add_headers x scope type x incoming 'rbacx_guard' {absent, own, other}; all three-instance "
+                "stacks over {inject, enforce} x {same, own guard}; the real Guard shared by / distinct in 8 stack shapes x "
+                "14 policies x 3 requests x inner mode x builder; then seeded random hostile decisions (non-ASCII, "
+                "quotes, CR/LF, 5000 chars, the word "
+                "Forbidden, None, non-strings, truthy/falsy non-bool `allowed`), hostile modes/scope types, stale or "
+                "object-valued 'rbacx_guard' keys, random outer instances, and real-Guard policies with hostile "
+                "rule/policy ids. non-trivial = the access "
                 "check applies (http + enforce + builder) or a denying/raising collaborator is configured behind a "
-                "pass-through; distinct = distinct case content")
+                "pass-through; distinct = distinct (case content, instance)")
     chk.assumptions = [
         "strings are well-formed Unicode text: lone surrogates in reason / rule id / policy id are outside the "
         "modelled domain (DESIGN 3.1); with add_headers on the implementation raises UnicodeEncodeError for them "
@@ -1214,7 +1243,12 @@ def run(chk):
         "str() of non-string decision fields is modelled for None/bool/int/float/printable-ASCII containers "
         "(Value.py_str); other values are judged directly in Python (bucket ood:str)",
         "awaiting is sequential composition; receive/send/downstream are called on the caller's task",
-        "scope values are JSON data (no bytes objects); the middleware only reads scope['type']",
+        "scope values are JSON data (no bytes objects) or, at the top level of the dict, opaque objects (the "
+        "middleware's own guard object, another guard object, a plain object) told apart by identity; objects "
+        "nested inside JSON containers are not generated",
+        "a stacked deployment is judged instance by instance: the model is a single instance, its downstream's "
+        "behaviour (exception class) is taken from what the next instance was observed to do; the end-to-end reading "
+        "(judge_direct) does not use the model",
     ]
     corp = corpus_cases()
     chk.extra["corpus_cases"] = len(corp)
